@@ -35,16 +35,17 @@ type kpPacket struct {
 }
 
 type kpSide struct {
-	ep          *handshake.VerifUAEAD
-	nextPN      int64
-	largestAck  int64 // largest pn accepted by SetLargestAcked (harness' view)
-	confirmed   bool
-	sentInGen   map[uint64][]int64 // pns sealed per generation
-	ackedOK     map[int64]bool     // pns for which SetLargestAcked returned nil
-	okCurGen    map[uint64]int     // packets opened OK whose sealing generation == own generation at that time
-	rcvdLargest int64              // largest peer pn opened OK
-	confirmAt   map[uint64]int64   // time of the first OK open of a packet of generation g (starts the drop timer)
-	pto3        int64
+	ep            *handshake.VerifUAEAD
+	nextPN        int64
+	largestAck    int64 // largest pn accepted by SetLargestAcked (harness' view)
+	confirmed     bool
+	sentInGen     map[uint64][]int64 // pns sealed per generation
+	ackedOK       map[int64]bool     // pns for which SetLargestAcked returned nil
+	okCurGen      map[uint64]int     // packets opened OK whose sealing generation == own generation at that time
+	rcvdLargest   int64              // largest peer pn opened OK
+	openedLargest int64              // largest pn of any successfully opened packet (0 before the first, as in the code)
+	confirmAt     map[uint64]int64   // time of the first OK open of a packet of generation g (starts the drop timer)
+	pto3          int64
 }
 
 // runKeyPhase: a real pair of updatableAEADs exchanging packets under generated
@@ -307,6 +308,12 @@ func kpCase(w *bufio.Writer, r *u.Rng, dist map[string]int, caseNo int) {
 		dec, cls := s.ep.Open(ct, now, pn, kp, hdr)
 		after := s.ep.Phase()
 		// ---- monitors ----
+		if cls == handshake.VerifOK && int64(pn) > s.openedLargest {
+			s.openedLargest = int64(pn)
+		}
+		if int64(s.ep.HighestRcvd()) != s.openedLargest {
+			fmt.Fprintf(w, "MONFAIL\tkeyphase/highest-rcvd\thighest received packet number is %d, the largest successfully opened one is %d\t%s\n", s.ep.HighestRcvd(), s.openedLargest, desc())
+		}
 		if cls == handshake.VerifOK {
 			if tam != 0 {
 				fmt.Fprintf(w, "MONFAIL\tkeyphase/tamper-accepted\ttampered packet #%d (mode %d) was opened\t%s\n", p.idx, tam, desc())
